@@ -42,7 +42,8 @@ class Check(PropertyCheck):
         for n in range(0, l4 + 1):
             for seq in itertools.product([(0, 0), (1, 0), (2, 0)], repeat=n):
                 cases.append((4, list(seq)))
-        outs8 = [(0, 0), (1, 0), (2, 0), (0, 1), (0, 2)]
+        # second component: the free-buffer read -- ok / timeout / EZSP error / answered with an error status (3)
+        outs8 = [(0, 0), (1, 0), (2, 0), (0, 1), (0, 2), (0, 3)]
         for n in range(0, l8 + 1):
             for seq in itertools.product(outs8, repeat=n):
                 cases.append((8, list(seq)))
@@ -77,6 +78,8 @@ class Check(PropertyCheck):
             if name in ("readCounters", "readAndClearCounters"):
                 return [[0] * len(t.EmberCounterType)]
             if name == "getValue":
+                if a == 3:
+                    return [t.EzspStatus.ERROR_INVALID_ID, b""]
                 return [t.EzspStatus.SUCCESS, b"\x07"]
             raise AssertionError(f"unexpected keep-alive command {name}")
 
@@ -98,7 +101,7 @@ class Check(PropertyCheck):
 
     def describe(self, case):
         v, seq = case
-        return {"version": v, "outcomes": "".join("OTE"[a] + ("" if b == 0 else "otе"[b]) for a, b in seq)[:120],
+        return {"version": v, "outcomes": "".join("OTE"[a] + ("" if b == 0 else "-te?"[b]) for a, b in seq)[:120],
                 "len": len(seq)}
 
     def model_input(self, case):
@@ -119,7 +122,7 @@ class Check(PropertyCheck):
         v, seq = case
         streak = 0
         for k, ((a1, a2), (raised, cmds)) in enumerate(zip(seq, obs), 1):
-            failed = a1 != 0 or (v != 4 and a2 != 0)
+            failed = a1 != 0 or (v != 4 and a2 in (1, 2))
             streak = streak + 1 if failed else 0
             want = failed and streak > A.MAX_WATCHDOG_FAILURES
             if bool(raised) != want:
